@@ -8,6 +8,7 @@
                   of the connection) and dispatches through c.Execute (conn.go handleMessage);
      job 1        the close job: nbio's closeWithError sets the Conn's closed flag (action Close), later the engine's
                   OnClose hook calls c.MustExecute(CloseAndClean + user OnClose) (nbhttp/engine.go:1169).
+   (Requests served on the connection before the upgrade are earlier jobs of the same queue and end before job 0 starts.)
    A websocket-level schedule [list wsact] is compiled to an action sequence of the serializer LTS; its drainer /
    executor steps (job start, job end, panic, hand-over, pool pick-up, ExecuteLen) are arbitrary and arbitrarily
    interleaved.  What the surrounding code guarantees about the ORDER OF SUBMISSIONS is the automaton [wf]:
